@@ -1043,6 +1043,9 @@ func (x *Exec) pureDecl(key string, argSorts []string, results *types.Tuple) *pu
 	}
 	for i := 0; i < results.Len(); i++ {
 		rs := x.S.SortOf(results.At(i).Type())
+		if isByteSlice(results.At(i).Type()) {
+			rs = SBytes
+		}
 		pf.results = append(pf.results, rs)
 		pf.rtypes = append(pf.rtypes, results.At(i).Type())
 		x.D.DeclareFun(fmt.Sprintf("%s.%d", pf.smt, i), argSorts, rs)
@@ -1052,14 +1055,48 @@ func (x *Exec) pureDecl(key string, argSorts []string, results *types.Tuple) *pu
 	return pf
 }
 
-func (x *Exec) pureApply(st *State, pf *pureFun, args []Val) Val {
+func isByteSlice(t types.Type) bool {
+	if t == nil {
+		return false
+	}
+	sl, ok := t.Underlying().(*types.Slice)
+	if !ok {
+		return false
+	}
+	b, ok := sl.Elem().Underlying().(*types.Basic)
+	return ok && (b.Kind() == types.Uint8)
+}
+
+// pureArgTerm: byte slices are passed to pure functions by content (sort Bytes), everything else
+// by its term.
+func (x *Exec) pureArgTerm(h map[string]Term, a Val) Term {
+	if a.T.Sort == SSlice && isByteSlice(a.Typ) {
+		return x.bytesOfIn(h, a.T)
+	}
+	return a.T
+}
+
+func (x *Exec) pureApply(st *State, h map[string]Term, pf *pureFun, args []Val) Val {
 	var ts []Term
 	for _, a := range args {
-		ts = append(ts, a.T)
+		ts = append(ts, x.pureArgTerm(h, a))
 	}
 	var res []Val
 	for i := range pf.results {
-		v := Val{T: App(pf.results[i], fmt.Sprintf("%s.%d", pf.smt, i), ts...), Typ: pf.rtypes[i]}
+		app := App(pf.results[i], fmt.Sprintf("%s.%d", pf.smt, i), ts...)
+		if pf.results[i] == SBytes {
+			// a []byte result: content given by the function, identity fresh (call) / irrelevant (spec)
+			if st == nil {
+				res = append(res, Val{T: app, Typ: nil})
+				continue
+			}
+			r := x.freshVal(st, "purebytes", pf.rtypes[i])
+			st.assume(Eq(x.bytesOf(st, r), x.define(st, "pure", app)))
+			st.assume(Eq(App(SInt, "s.len", r.T), App(SInt, "bytes.len_", x.bytesOf(st, r))))
+			res = append(res, r)
+			continue
+		}
+		v := Val{T: app, Typ: pf.rtypes[i]}
 		if st != nil {
 			v.T = x.define(st, "pure", v.T)
 			x.assumeTyped(st, v)
@@ -1083,23 +1120,23 @@ func (x *Exec) callPure(st *State, name string, args []Val, results *types.Tuple
 	}
 	var sorts []string
 	for _, a := range args {
-		sorts = append(sorts, a.T.Sort)
+		sorts = append(sorts, x.pureArgTerm(st.heap, a).Sort)
 	}
 	pf := x.pureDecl(pat, sorts, results)
 	if len(pf.args) != len(args) {
 		return Val{}, false
 	}
 	for i := range args {
-		if pf.args[i] != args[i].T.Sort {
+		if pf.args[i] != sorts[i] {
 			return Val{}, false
 		}
 	}
 	x.Trusted["assumed pure: "+pat]++
-	return x.pureApply(st, pf, args), true
+	return x.pureApply(st, st.heap, pf, args), true
 }
 
 // specPure resolves a spec-level call `Method(args)` against the pure list of the contract.
-func (x *Exec) specPure(st *State, fun string, args []Val) (Val, bool) {
+func (x *Exec) specPure(st *State, h map[string]Term, fun string, args []Val) (Val, bool) {
 	if x.TopC == nil {
 		return Val{}, false
 	}
@@ -1108,12 +1145,16 @@ func (x *Exec) specPure(st *State, fun string, args []Val) (Val, bool) {
 			continue
 		}
 		sig := x.lookupSig(pat)
+		if sig == nil && x.Top != nil && x.Top.Pkg != nil {
+			// pattern without a package: the package of the function under verification
+			sig = x.lookupSig(strings.TrimPrefix(x.Top.Pkg.Pkg.Path(), ModPath+"/") + "." + pat)
+		}
 		if sig == nil {
 			continue
 		}
 		var sorts []string
 		for _, a := range args {
-			sorts = append(sorts, a.T.Sort)
+			sorts = append(sorts, x.pureArgTerm(h, a).Sort)
 		}
 		pf := x.pureDecl(pat, sorts, sig.Results())
 		if len(pf.args) != len(args) {
@@ -1121,14 +1162,14 @@ func (x *Exec) specPure(st *State, fun string, args []Val) (Val, bool) {
 		}
 		okSorts := true
 		for i := range args {
-			if pf.args[i] != args[i].T.Sort {
+			if pf.args[i] != sorts[i] {
 				okSorts = false
 			}
 		}
 		if !okSorts {
 			continue
 		}
-		return x.pureApply(nil, pf, args), true
+		return x.pureApply(nil, h, pf, args), true
 	}
 	return Val{}, false
 }
